@@ -194,7 +194,7 @@ def check_repository(repo, model, revmap, tag, rich_root=None):
                 orev = inv.get(orev, orev)
                 if orev != lc:
                     if lc == rid:
-                        sig = "last-changed-carried-over-but-entry-changed"
+                        sig = "last-changed-carried-over-but-new-version-expected"
                     elif orev == rid:
                         sig = "last-changed-new-version-but-entry-unchanged"
                     else:
